@@ -312,6 +312,17 @@ func (R *Renderer) render(v ssa.Value) string {
 			}
 			return "is<" + short(types.TypeString(ta.AssertedType, nil)) + ">(" + R.V(ta.X) + ")"
 		}
+		if cl, ok := x.Tuple.(*ssa.Call); ok {
+			if h := cl.Call.StaticCallee(); h != nil && h != R.fn {
+				if tmpl, ok := tupleTemplate(h, x.Index); ok {
+					var args []string
+					for _, a := range cl.Call.Args {
+						args = append(args, R.V(a))
+					}
+					return substParams(tmpl, args)
+				}
+			}
+		}
 		return fmt.Sprintf("%s#%d", R.V(x.Tuple), x.Index)
 	case *ssa.Call:
 		return R.call(x)
@@ -993,9 +1004,30 @@ func (R *Renderer) CondAtom(v ssa.Value) Atom {
 // (`b.acceptsWrites()` with `return b.mode != ERR` is the atom mode != ERR).
 var pureBoolBusy = map[*ssa.Function]bool{}
 
-func (R *Renderer) pureBoolAtom(cl *ssa.Call) (Atom, bool) {
-	h := cl.Call.StaticCallee()
-	if h == nil || h == R.fn || pureBoolBusy[h] || !pureBody(h) {
+// boolCallAtom renders the atom "fn(args) is true" the way CondAtom would on the current tree.
+func (P *Prog) boolCallAtom(fn string, args ...string) string {
+	if h := P.Fn(fn); h != nil {
+		if a, ok := pureBoolTemplate(h); ok {
+			return substAtom(a, args).String()
+		}
+	}
+	return fn + "(" + strings.Join(args, ",") + ")"
+}
+
+func substAtom(a Atom, args []string) Atom {
+	out := Atom{Op: a.Op, B: substParams(a.B, args), L: Lin{K: a.L.K, T: map[string]int64{}}}
+	for t, co := range a.L.T {
+		out.L.T[substParams(t, args)] += co
+	}
+	if out.Op == "==0" || out.Op == "!=0" {
+		out.L = canonEq(out.L)
+	}
+	return out
+}
+
+// pureBoolTemplate: the atom (over h's parameters) a pure single-comparison boolean helper stands for.
+func pureBoolTemplate(h *ssa.Function) (Atom, bool) {
+	if h == nil || pureBoolBusy[h] || !pureBody(h) {
 		return Atom{}, false
 	}
 	res := h.Signature.Results()
@@ -1014,25 +1046,34 @@ func (R *Renderer) pureBoolAtom(cl *ssa.Call) (Atom, bool) {
 	}
 	pureBoolBusy[h] = true
 	defer delete(pureBoolBusy, h)
-	HR := NewRenderer(h)
-	a := HR.CondAtom(v)
-	var args []string
-	for _, x := range cl.Call.Args {
-		args = append(args, R.V(x))
-	}
-	out := Atom{Op: a.Op, B: substParams(a.B, args), L: Lin{K: a.L.K, T: map[string]int64{}}}
-	for t, co := range a.L.T {
-		out.L.T[substParams(t, args)] += co
-	}
+	a := NewRenderer(h).CondAtom(v)
 	for _, bad := range []string{"var(", "…", "?"} {
-		if strings.Contains(out.String(), bad) {
+		if strings.Contains(a.String(), bad) {
 			return Atom{}, false
 		}
 	}
-	if out.Op == "==0" || out.Op == "!=0" {
-		out.L = canonEq(out.L)
+	return a, true
+}
+
+func (R *Renderer) pureBoolAtom(cl *ssa.Call) (Atom, bool) {
+	h := cl.Call.StaticCallee()
+	if h == nil || h == R.fn {
+		return Atom{}, false
 	}
-	return out, true
+	if a, ok := pureBoolTemplate(h); ok {
+		var args []string
+		for _, x := range cl.Call.Args {
+			args = append(args, R.V(x))
+		}
+		out := substAtom(a, args)
+		for _, bad := range []string{"var(", "…", "?"} {
+			if strings.Contains(out.String(), bad) {
+				return Atom{}, false
+			}
+		}
+		return out, true
+	}
+	return Atom{}, false
 }
 
 // pureBody: no effects besides the function's own locals (see pureValue).
@@ -1087,6 +1128,9 @@ var pureMemo = map[*ssa.Function]*string{}
 
 var countRe = regexp.MustCompile(`count\{[^{}]*\}`)
 
+// a loop position `*` (not the star of a pointer type in a method name)
+var loopPosRe = regexp.MustCompile(`\*([^A-Za-z_]|$)`)
+
 func pureValue(h *ssa.Function) (string, bool) {
 	if p, ok := pureMemo[h]; ok {
 		if p == nil {
@@ -1122,7 +1166,7 @@ func pureValue(h *ssa.Function) (string, bool) {
 	// a value that depends on a loop position (search loops) or merges alternatives is better
 	// named by its function
 	chk := countRe.ReplaceAllString(strings.ReplaceAll(out, "[*]", "[]"), "count")
-	if strings.Contains(chk, "*") || strings.Contains(out, "phi{") {
+	if loopPosRe.MatchString(chk) || strings.Contains(out, "phi{") {
 		return "", false
 	}
 	for _, bad := range []string{"var(", "…", "?", "select", "next"} {
@@ -1173,4 +1217,62 @@ func descendingInit(p *ssa.Phi) ssa.Value {
 		return nil
 	}
 	return init
+}
+
+// tupleTemplate: result i of a same-module function with an error result, when every success
+// return hands out one and the same term over the parameters (`v, err := X(a); if err != nil
+// {return 0, err}; return v, nil` hands out X(a)#0): the extracted result is rendered as that
+// term.  The conditions the helper imposes on the way are available as its return-site facts.
+var tupleMemo = map[*ssa.Function]map[int]*string{}
+
+func tupleTemplate(h *ssa.Function, i int) (string, bool) {
+	if m, ok := tupleMemo[h]; ok {
+		if p, ok := m[i]; ok {
+			if p == nil {
+				return "", false
+			}
+			return *p, true
+		}
+	} else {
+		tupleMemo[h] = map[int]*string{}
+	}
+	tupleMemo[h][i] = nil
+	if h.Blocks == nil || len(h.Blocks) > 24 || !isJivaFn(h) || len(h.FreeVars) > 0 || h.Signature.Variadic() {
+		return "", false
+	}
+	// only helpers that did not exist when the rule instances were confirmed: the terms of the
+	// functions of the baseline are the vocabulary the rules are written in
+	if !isFreshFn(h) {
+		return "", false
+	}
+	ei := errResultIndex(h)
+	if ei < 0 || i == ei || i >= h.Signature.Results().Len() {
+		return "", false
+	}
+	R := NewRenderer(h)
+	var vals []string
+	for _, r := range successReturns(h) {
+		rr := r.(*ssa.Return)
+		if i >= len(rr.Results) {
+			return "", false
+		}
+		vals = append(vals, R.V(strip(rr.Results[i])))
+	}
+	sort.Strings(vals)
+	vals = dedup(vals)
+	if len(vals) != 1 {
+		return "", false
+	}
+	out := vals[0]
+	chk := countRe.ReplaceAllString(strings.ReplaceAll(out, "[*]", "[]"), "count")
+	if loopPosRe.MatchString(chk) || strings.Contains(out, "phi{") || !strings.Contains(out, "(") {
+		return "", false
+	}
+	for _, bad := range []string{"var(", "…", "?", "select", "next"} {
+		if strings.Contains(out, bad) {
+			return "", false
+		}
+	}
+	tupleMemo[h][i] = &out
+	return out, true
 }
